@@ -44,7 +44,7 @@ from .values import (
 
 BUILTINS = {
     "len", "range", "enumerate", "zip", "sorted", "max", "min", "sum", "abs", "int", "float", "list", "tuple",
-    "isinstance", "print", "str", "bool", "map", "round", "dict", "reversed", "super", "all", "any", "hasattr",
+    "isinstance", "print", "str", "bool", "map", "round", "dict", "reversed", "super", "all", "any", "hasattr", "open", "type",
 }
 
 # uninterpreted real functions with a few axioms, instantiated on demand
@@ -95,6 +95,25 @@ def module_attr(ex, m: ModuleRef, attr, mod):
 def call_builtin(ex, st, name, args, kwargs, node, mod):
     if name in ("datetime.datetime.now", "datetime.now"):
         return Opaque("datetime", {})
+    if name == "pathlib.Path":
+        a0 = args[0] if args else None
+        return a0 if isinstance(a0, Opaque) and a0.kind == "path" else Opaque("path", {"id": z3.Int(uid("path"))})
+    if name == "open":
+        return Opaque("file", {})
+    if name in ("json.dumps",):
+        # the serialised text is opaque; the object it serialises is kept as ghost attribute `json_of`
+        return Opaque("str", {"json_of": args[0]} if args else {})
+    if name == "logging.getLogger":
+        return Opaque("logger", {})
+    if name in ("json.loads",):
+        return Opaque("json", {})
+    if name in ("sys.exit", "exit"):
+        # process exit: a SystemExit carrying the status (A-CLICK: in standalone mode click turns it into the process exit status)
+        st.env["_exit_status"] = args[0] if args else 0
+        cs = st.clone()
+        st.forks.append(("raise", cs, "SystemExit"))
+        st.dead = True  # the normal continuation does not exist
+        return None
     fn = _TABLE.get(name)
     if fn is None:
         raise Unsupported(f"library function {name} has no model (line {getattr(node, 'lineno', '?')})")
@@ -120,6 +139,10 @@ def b_len(ex, st, args, kwargs, node):
     if v is None:
         ex.safety(st, "len-none", False, node)
         return 0
+    if isinstance(v, ClassRef):
+        members, _ = ex.enum_members(v)
+        if members is not None:
+            return len(members)
     raise Unsupported(f"len of {type(v).__name__}")
 
 
@@ -200,7 +223,8 @@ def b_tuple(ex, st, args, kwargs, node):
     s = ex.iter_seq(args[0], st, node)
     if isinstance(s.length, int):
         return tuple(s.get(k) for k in range(s.length))
-    raise Unsupported("tuple() of symbolic length")
+    # symbolic length: the value domain has no symbolic tuples; an (unaliased) list with the same elements stands in for it
+    return PyList(Seq(s.length, s.get, tag=getattr(s, "tag", None)))
 
 
 def _maxmin(ex, st, items, is_max, node):
@@ -364,6 +388,22 @@ def b_float(ex, st, args, kwargs, node):
     return to_real(v)
 
 
+def b_round(ex, st, args, kwargs, node):
+    """round(x) for a real x: nearest integer, ties to even (Python 3)"""
+    if len(args) != 1:
+        raise Unsupported("round with ndigits")
+    v = args[0]
+    if isinstance(v, int):
+        return v
+    if isinstance(v, Fraction):
+        return round(v)
+    z = to_real(v)
+    ex.discont.append((ex.fn_stack[0][0], getattr(node, "lineno", 0), "round() of a real"))
+    f = z3.ToInt(z + z3.RealVal("1/2"))
+    tie = z3.ToReal(f) == z + z3.RealVal("1/2")
+    return z3.If(z3.And(tie, f % 2 != 0), f - 1, f)
+
+
 def b_isinstance(ex, st, args, kwargs, node):
     v, t = args
     names = []
@@ -391,6 +431,24 @@ def b_isinstance(ex, st, args, kwargs, node):
         if isinstance(v, PyObj) and v.cls.endswith(":" + n):
             res = True
     return res
+
+
+def b_type(ex, st, args, kwargs, node):
+    """type(x) for the cases the code asks about (`type(pos) is list`): values whose Python type the value domain fixes"""
+    (v,) = args
+    if isinstance(v, PyList) and not v.np or (isinstance(v, Opaque) and v.kind == "list"):
+        return Builtin("list")
+    if isinstance(v, tuple):
+        return Builtin("tuple")
+    if isinstance(v, bool):
+        return Builtin("bool")
+    if is_int_valued(v):
+        return Builtin("int")
+    if is_real_valued(v):
+        return Builtin("float")
+    if isinstance(v, str):
+        return Builtin("str")
+    raise Unsupported("type() of this value")
 
 
 def b_print(ex, st, args, kwargs, node):
@@ -506,7 +564,14 @@ def m_interp1d(ex, st, args, kwargs, node):
 def b_all(ex, st, args, kwargs, node, is_all=True):
     s = ex.iter_seq(args[0], st, node)
     if not isinstance(s.length, int):
-        raise Unsupported("all/any over symbolic length")
+        # symbolic length: a quantified formula over the positions of the sequence
+        k = z3.Int(uid("allk"))
+        body = to_bool(s.get(k))
+        body = z3.BoolVal(body) if isinstance(body, bool) else body
+        rng_k = z3.And(0 <= k, k < to_z3(s.length))
+        if is_all:
+            return z3.ForAll([k], z3.Implies(rng_k, body))
+        return z3.Exists([k], z3.And(rng_k, body))
     ts = [to_bool(s.get(k)) for k in range(s.length)]
     if all(isinstance(t, bool) for t in ts):
         return all(ts) if is_all else any(ts)
@@ -542,6 +607,17 @@ def m_ceil(ex, st, args, kwargs, node):
         return z
     ex.discont.append((ex.fn_stack[0][0], getattr(node, "lineno", 0), "ceil of a real"))
     return -z3.ToInt(-z)
+
+
+def m_isclose(ex, st, args, kwargs, node):
+    """math.isclose over the reals: |a - b| <= max(rel_tol * max(|a|, |b|), abs_tol)"""
+    a, b = to_real(to_z3(args[0])), to_real(to_z3(args[1]))
+    rel = to_real(to_z3(kwargs.get("rel_tol", Fraction(1, 10**9))))
+    abs_tol = to_real(to_z3(kwargs.get("abs_tol", 0)))
+    ab = lambda x: z3.If(x >= 0, x, -x)  # noqa: E731
+    mx = lambda x, y: z3.If(x >= y, x, y)  # noqa: E731
+    ex.discont.append((ex.fn_stack[0][0], getattr(node, "lineno", 0), "isclose of reals"))
+    return ab(a - b) <= mx(rel * mx(ab(a), ab(b)), abs_tol)
 
 
 def m_floor(ex, st, args, kwargs, node):
@@ -700,6 +776,10 @@ def _lazy(ex, f):
 def list_concat(a: PyList, b: PyList):
     if a.is_conc() and b.is_conc():
         return PyList(a.v + b.v)
+    if a.is_conc() and not a.v:
+        return PyList(b.v, np=b.np)
+    if b.is_conc() and not b.v:
+        return PyList(a.v, np=a.np)
     sa, sb = a.as_seq(), b.as_seq()
     na, nb = sa.length, sb.length
     if isinstance(na, int) and isinstance(nb, int):
@@ -991,7 +1071,11 @@ def n_arange(ex, st, args, kwargs, node):
 
 
 def n_zeros(ex, st, args, kwargs, node):
-    n = args[0]
+    n = args[0] if args else kwargs.get("shape")
+    if isinstance(n, tuple) and len(n) == 2 and all(isinstance(x, int) for x in n):
+        return PyList([PyList([Fraction(0)] * n[1], np=True) for _ in range(n[0])], np=True)
+    if isinstance(n, tuple) and len(n) == 1:
+        n = n[0]
     if isinstance(n, int):
         return PyList([Fraction(0)] * n, np=True)
     return PyList(Seq(n, lambda i: Fraction(0), np=True), np=True)
@@ -1011,6 +1095,24 @@ def construct(ex, st, cref: ClassRef, args, kwargs, node, mod):
 def opaque_attr(ex, st, o, attr, node):
     if o.kind in ("datetime", "str"):
         return UFunM(lambda ex_, st_, args, kwargs, node_: Opaque("str", {}))
+    if o.kind == "path":
+        if attr in ("resolve", "absolute"):
+            return UFunM(lambda ex_, st_, args, kwargs, node_: o)
+        if attr == "read_text":
+            return UFunM(lambda ex_, st_, args, kwargs, node_: Opaque("text", {"of": o.attrs.get("id")}))
+        if attr == "parent":
+            return Opaque("path", {"id": z3.Int(uid("path"))})
+    if o.kind == "file" and attr == "write":
+        # ghost: the last thing written to any file in this activation is visible to contracts as `_written`
+        def _write(ex_, st_, args, kwargs, node_):
+            st_.env["_written"] = args[0] if args else None
+            return None
+        return UFunM(_write)
+    if o.kind in ("logger", "file"):
+        return UFunM(lambda ex_, st_, args, kwargs, node_: None)
+    if o.kind == "json":
+        if attr == "get":
+            return UFunM(lambda ex_, st_, args, kwargs, node_: Opaque("json", {}))
     raise Unsupported(f"attribute {attr} of opaque {o.kind}")
 
 
@@ -1216,8 +1318,8 @@ _TABLE = {
     "len": b_len, "range": b_range, "enumerate": b_enumerate, "zip": b_zip, "list": b_list, "tuple": b_tuple,
     "max": b_max, "min": b_min, "sum": b_sum, "abs": b_abs, "int": b_int, "float": b_float,
     "isinstance": b_isinstance, "print": b_print, "str": b_str, "bool": b_bool, "sorted": b_sorted, "map": b_map,
-    "dict": b_dict,
-    "math.ceil": m_ceil, "math.floor": m_floor, "math.sqrt": m_sqrt, "math.log": m_log, "math.exp": m_exp,
+    "dict": b_dict, "type": b_type,
+    "math.isclose": m_isclose, "numpy.isclose": m_isclose, "math.ceil": m_ceil, "math.floor": m_floor, "math.sqrt": m_sqrt, "math.log": m_log, "math.exp": m_exp,
     "math.sin": m_trig(SIN, "sin"), "math.cos": m_trig(COS, "cos"), "math.atan": m_trig(ATAN, "atan"),
     "numpy.append": n_append, "numpy.array": n_array, "numpy.hstack": n_hstack, "numpy.log": m_log,
     "numpy.arange": n_arange, "numpy.zeros": n_zeros, "numpy.sqrt": m_sqrt, "numpy.exp": m_exp,
@@ -1226,6 +1328,7 @@ _TABLE = {
     "scipy.interpolate.interp1d": m_interp1d,
     "all": b_all, "any": lambda ex, st, args, kwargs, node: b_all(ex, st, args, kwargs, node, is_all=False),
     "hasattr": b_hasattr,
+    "round": b_round,
     "datetime.datetime": None,
     "time.time": lambda ex, st, args, kwargs, node: z3.Real(uid("time")),
 }
